@@ -133,8 +133,17 @@ class Harness(object):
         s['trialSolution'] = observe.canon(getattr(solver or self.solver, 'trialSolution', None))
         return s
 
+    def thinned(self, step_no):
+        """long runs (a Solve that goes to mystic's default limits): after THIN_AFTER executed steps only
+        every THIN_EVERY-th iteration boundary is snapshotted and judged (snapshots are O(history))"""
+        return step_no > self.THIN_AFTER and step_no % self.THIN_EVERY != 0
+
+    THIN_AFTER = 256
+    THIN_EVERY = 16
+
     def _pre_step(self, solver):
         if not any(getattr(o, 'before_step', None) for o in self.oracles): return
+        if self.thinned(self.steps_executed + 1): return
         self.run.observing = True
         try:
             s = self.snap(solver, monitors=False)
@@ -151,6 +160,9 @@ class Harness(object):
 
     def _on_callback(self, xt):
         self.steps_executed += 1
+        if self.thinned(self.steps_executed):
+            self.run.probe('thinned_step')
+            return
         self.run.observing = True
         try:
             self._on_callback2(xt)
